@@ -588,6 +588,48 @@ theorem sync_reset_bits (inits : Env) (hI : EnvN ctx inits) (rl : List Bool) (r 
   · simp only [hres, Bool.false_eq_true, if_false]
     rw [hval]
 
+include hok in
+/-- **A combinational process**: every bit it drives (masked bit) holds the last value an active assignment wrote to
+it in this state, or — when no assignment is active for it — the bit's *initial* value (combinational signals have
+no memory); bits it does not drive are as the other processes left them. -/
+theorem comb_process_bits (inits : Env) (hI : EnvN ctx inits) (body : Stmt) (acc : Env) (hC : EnvN ctx cur)
+    (hA : EnvN ctx acc) (htg : ∀ e ∈ stmtTargets body, e.twf ctx = true ∧ e.noAlias ctx cur)
+    (i b : Nat) (hi : i < ctx.length) (hb : b < (ctx.shape i).width) :
+    bitAt (commitInto ctx body (combNext ctx inits body cur) acc) i b =
+      match wbit ctx cur (stmtWrites ctx cur body) i b with
+      | some x => x
+      | none =>
+        if ibit ((stmtMask ctx body (List.replicate ctx.length 0)).get i) b then bitAt inits i b else bitAt acc i b := by
+  unfold combNext
+  simp only
+  set start : Env := (List.range ctx.length).map fun j =>
+    if (stmtSigs body).contains j then inits.val j else cur.val j with hstart
+  have hS : EnvN ctx start := by
+    refine ⟨by simp [hstart], fun j hj => ?_⟩
+    rw [hstart, val_map_range _ _ _ hj]
+    split
+    · exact hI.ok j hj
+    · exact hC.ok j hj
+  rw [(process_bits ctx cur hok body start acc hS hA htg).2 i b hi hb]
+  cases wbit ctx cur (stmtWrites ctx cur body) i b with
+  | some x => rfl
+  | none =>
+    simp only
+    by_cases hm : ibit ((stmtMask ctx body (List.replicate ctx.length 0)).get i) b = true
+    · simp only [hm, if_true]
+      have hin : (stmtSigs body).contains i = true := by
+        cases hc : (stmtSigs body).contains i with
+        | true => rfl
+        | false =>
+          exfalso
+          have hni : i ∉ stmtSigs body := by
+            intro hmem; rw [List.contains_iff_mem.mpr hmem] at hc; cases hc
+          rw [stmtMask_untouched ctx i body _ hni, replicate_get, ibit_zero'] at hm
+          cases hm
+      unfold bitAt
+      rw [hstart, val_map_range _ _ _ hi, hin]; rfl
+    · simp [hm]
+
 end
 
 end Amaranth
